@@ -55,6 +55,12 @@ func (dm *DMap) deleteFromPreviousOwners(key string, owners []discovery.Member) 
 	// Traverse in reverse order. Except from the latest host, this one.
 	for i := len(owners) - 2; i >= 0; i-- {
 		owner := owners[i]
+		if owner.CompareByID(dm.s.rt.This()) {
+			// Eviction also runs on a previous owner of the partition, for the fragment it still
+			// holds. The caller removes the copy on this member itself and holds the fragment's
+			// lock while it does so: a DelEntry request to itself would wait for that lock for ever.
+			continue
+		}
 		cmd := protocol.NewDelEntry(dm.name, key).Command(dm.s.ctx)
 		rc := dm.s.client.Get(owner.String())
 		err := rc.Process(dm.s.ctx, cmd)
